@@ -51,11 +51,30 @@ func (fr *Frame) loopWrites(h *ssa.BasicBlock) (keys map[string]bool, open map[s
 				kd, kv, kl := u.regM(x.Type().Underlying().(*types.Map))
 				keys[kd], keys[kv], keys[kl] = true, true, true
 			case *ssa.Store:
+				fr.lastSliceBase = nil
 				k, fresh := fr.storeTarget(x.Addr, body)
 				if k != "" {
 					keys[k] = true
 					if !fresh {
-						open[k] = true
+						// a store into an element of a slice value that is defined outside the loop writes only that
+						// slice's backing array: every other array of that element type keeps its contents
+						if sb := fr.lastSliceBase; sb != nil && definedOutside(sb, body) {
+							if fr.loopTargets == nil {
+								fr.loopTargets = map[*ssa.BasicBlock]map[string][]ssa.Value{}
+							}
+							if fr.loopTargets[h] == nil {
+								fr.loopTargets[h] = map[string][]ssa.Value{}
+							}
+							dup := false
+							for _, t := range fr.loopTargets[h][k] {
+								dup = dup || t == sb
+							}
+							if !dup {
+								fr.loopTargets[h][k] = append(fr.loopTargets[h][k], sb)
+							}
+						} else {
+							open[k] = true
+						}
 					}
 				}
 			case *ssa.MapUpdate:
@@ -123,6 +142,7 @@ func (fr *Frame) storeTarget(addr ssa.Value, body map[*ssa.BasicBlock]bool) (str
 					fresh = true
 				}
 				fr.lastKeyInfo = keyInfo{'A', el}
+				fr.lastSliceBase = x.X
 				return u.regA(el), fresh
 			}
 			root = x.X
@@ -199,7 +219,20 @@ func (fr *Frame) enterLoop(h *ssa.BasicBlock, st *State, phiIn func(*ssa.Phi) *V
 	}
 	sort.Strings(ks)
 	for _, k := range ks {
-		u.havocHeap(st, k, open[k], nil)
+		var except []string
+		if !open[k] {
+			for _, sb := range fr.loopTargets[h][k] {
+				if v := fr.val(sb); v != nil && v.K == vTerm {
+					except = append(except, fmt.Sprintf("(sdata %s)", v.T))
+				} else {
+					open[k] = true
+				}
+			}
+		}
+		if open[k] {
+			except = nil
+		}
+		u.havocHeap(st, k, open[k], except)
 	}
 	for g := range ghosts {
 		if srt := u.ghostSort[g]; srt != "" {
@@ -235,6 +268,14 @@ func (fr *Frame) enterLoop(h *ssa.BasicBlock, st *State, phiIn func(*ssa.Phi) *V
 				}
 				u.enumTag[fr.vals[p].T] = &enumInfo{mapT: m.T, mt: mv.Type().Underlying().(*types.Map), h: h, fr: fr}
 			}
+		}
+	}
+	if ie := fr.idxEnumeration(h); ie != nil {
+		if m, sv := fr.val(ie.mapv), fr.val(ie.slice); m != nil && m.K == vTerm && sv != nil && sv.K == vTerm {
+			if u.enumTag == nil {
+				u.enumTag = map[string]*enumInfo{}
+			}
+			u.enumTag[sv.T] = &enumInfo{mapT: m.T, mt: ie.mapv.Type().Underlying().(*types.Map), h: h, fr: fr, indexed: true}
 		}
 	}
 	// 4. assume invariants
@@ -386,6 +427,7 @@ func (u *Unit) mapLen(st *State, mt *types.Map, m string) string {
 	if !u.frameDone[ck] {
 		u.frameDone[ck] = true
 		u.fact(fmt.Sprintf("(>= %s 0)", t))
+		u.fact(fmt.Sprintf("(<= %s 9223372036854775807)", t))
 	}
 	return t
 }
@@ -558,6 +600,14 @@ func (fr *Frame) nextOp(x *ssa.Next, st *State) *Val {
 	wk := u.w.newConst("somekey:"+x.Name(), ks)
 	u.fact(implies(and(nonnil, fmt.Sprintf("(> %s 0)", u.mapLen(st, mt, it.mapRef))), fmt.Sprintf("(select %s %s)", dom, wk)))
 	u.fact(implies(and(not(ok), nonnil, fmt.Sprintf("(select %s %s)", dom, wk)), fmt.Sprintf("(select %s %s)", visited, wk)))
+	// the store index of a recognised indexed key enumeration counts the completed iterations of a range over a map
+	// that the loop does not modify: while there is a next key it is below len(m)
+	if ie := fr.idxEnumeration(x.Block()); ie != nil && ie.nx == x {
+		if c, have := fr.vals[ie.counter]; have && c.K == vTerm {
+			u.fact(implies(ok, and(fmt.Sprintf("(<= 0 %s)", c.T), fmt.Sprintf("(< %s %s)", c.T, u.mapLen(st, mt, it.mapRef)))))
+			u.assume[idxEnumAssumption] = true
+		}
+	}
 	v := fr.named(x, fmt.Sprintf("(select %s %s)", u.mapVal(st, mt, it.mapRef), k), mt.Elem())
 	for _, f := range u.wfFacts(st, k, mt.Key(), 0) {
 		u.fact(f)
@@ -788,10 +838,133 @@ func (fr *Frame) keyEnumeration(h *ssa.BasicBlock, p *ssa.Phi) (ssa.Value, bool)
 }
 
 type enumInfo struct {
-	mapT string
-	mt   *types.Map
-	h    *ssa.BasicBlock
-	fr   *Frame
+	mapT    string
+	mt      *types.Map
+	h       *ssa.BasicBlock
+	fr      *Frame
+	indexed bool // filled by indexed stores into a pre-sized slice (not a loop-carried value)
+}
+
+const idxEnumAssumption = "a slice made with len(m) elements that receives the key at a store index counting from 0 in each iteration of a complete range over the unmodified map m enumerates the keys of m, each once, and the index stays below len(m) (recognised syntactically on the SSA of the loop)"
+
+type idxEnum struct {
+	slice, mapv ssa.Value
+	counter     *ssa.Phi
+	nx          *ssa.Next
+}
+
+// idxEnumeration recognises `s := make([]K, len(m)); i := 0; for k := range m { s[i] = k; i++ }`: the loop with header
+// h ranges over the map m, its only loop-carried value is the counter i (from 0, +1 per iteration), its body is one
+// block that does nothing but store the key at s[i], s has exactly len(m) elements, and s is not used anywhere else
+// before the loop has finished.
+func (fr *Frame) idxEnumeration(h *ssa.BasicBlock) *idxEnum {
+	if h == nil {
+		return nil
+	}
+	if r, ok := fr.idxEnums[h]; ok {
+		return r
+	}
+	if fr.idxEnums == nil {
+		fr.idxEnums = map[*ssa.BasicBlock]*idxEnum{}
+	}
+	r := fr.idxEnumeration1(h)
+	fr.idxEnums[h] = r
+	return r
+}
+
+func (fr *Frame) idxEnumeration1(h *ssa.BasicBlock) *idxEnum {
+	body := fr.loopBody[h]
+	if len(body) != 2 || len(h.Succs) != 2 {
+		return nil
+	}
+	var phis []*ssa.Phi
+	var nx *ssa.Next
+	for _, in := range h.Instrs {
+		switch in := in.(type) {
+		case *ssa.Phi:
+			phis = append(phis, in)
+		case *ssa.Next:
+			nx = in
+		}
+	}
+	cs := fr.countingPhis(h)
+	if len(phis) != 1 || len(cs) != 1 || cs[0] != phis[0] || nx == nil || nx.IsString {
+		return nil
+	}
+	c := cs[0]
+	rg, ok := nx.Iter.(*ssa.Range)
+	if !ok || body[rg.Block()] {
+		return nil
+	}
+	if _, ok := rg.X.Type().Underlying().(*types.Map); !ok {
+		return nil
+	}
+	bodyBlk := h.Succs[0]
+	if !body[bodyBlk] || bodyBlk == h || len(bodyBlk.Succs) != 1 || bodyBlk.Succs[0] != h {
+		return nil
+	}
+	if _, ok := h.Instrs[len(h.Instrs)-1].(*ssa.If); !ok {
+		return nil
+	}
+	var slice ssa.Value
+	var ia *ssa.IndexAddr
+	stores := 0
+	for _, in := range bodyBlk.Instrs {
+		switch in := in.(type) {
+		case *ssa.DebugRef, *ssa.Jump:
+		case *ssa.Extract:
+			if in.Tuple != ssa.Value(nx) {
+				return nil
+			}
+		case *ssa.IndexAddr:
+			if ia != nil || in.Index != ssa.Value(c) {
+				return nil
+			}
+			ia, slice = in, in.X
+		case *ssa.Store:
+			ex, ok := in.Val.(*ssa.Extract)
+			if !ok || ex.Tuple != ssa.Value(nx) || ex.Index != 1 || ia == nil || in.Addr != ssa.Value(ia) {
+				return nil
+			}
+			stores++
+		case *ssa.BinOp:
+			if in.Op != token.ADD || in.X != ssa.Value(c) {
+				return nil
+			}
+		default:
+			return nil
+		}
+	}
+	if stores != 1 || slice == nil {
+		return nil
+	}
+	ms, ok := slice.(*ssa.MakeSlice)
+	if !ok || body[ms.Block()] || ms.Len != ms.Cap {
+		return nil
+	}
+	ln, ok := ms.Len.(*ssa.Call)
+	if !ok {
+		return nil
+	}
+	if b, ok := ln.Call.Value.(*ssa.Builtin); !ok || b.Name() != "len" || len(ln.Call.Args) != 1 || ln.Call.Args[0] != rg.X {
+		return nil
+	}
+	// every other use of the slice comes after the loop has finished
+	if ms.Referrers() == nil {
+		return nil
+	}
+	for _, ref := range *ms.Referrers() {
+		if ref == ssa.Instruction(ia) {
+			continue
+		}
+		if _, ok := ref.(*ssa.DebugRef); ok {
+			continue
+		}
+		if body[ref.Block()] || !h.Dominates(ref.Block()) {
+			return nil
+		}
+	}
+	return &idxEnum{slice: slice, mapv: rg.X, counter: c, nx: nx}
 }
 
 // sortedKeyFn: (m, i) -> the i-th smallest key of map m
@@ -825,6 +998,17 @@ func allocatedIn(v ssa.Value, body map[*ssa.BasicBlock]bool, seen map[ssa.Value]
 		if b, ok := x.Call.Value.(*ssa.Builtin); ok && b.Name() == "append" && body[x.Block()] {
 			return allocatedIn(x.Call.Args[0], body, seen)
 		}
+	}
+	return false
+}
+
+// definedOutside: the value is computed before the loop with the given body is entered
+func definedOutside(v ssa.Value, body map[*ssa.BasicBlock]bool) bool {
+	switch x := v.(type) {
+	case *ssa.Parameter, *ssa.FreeVar, *ssa.Const, *ssa.Global:
+		return true
+	case ssa.Instruction:
+		return x.Block() != nil && !body[x.Block()]
 	}
 	return false
 }
